@@ -12,6 +12,8 @@ import (
 	"encoding/binary"
 	"encoding/hex"
 	"fmt"
+	"hash/fnv"
+	"math/rand/v2"
 	"net"
 	"net/netip"
 	"strconv"
@@ -31,12 +33,18 @@ type pre struct {
 	Class uint16 `json:"class"`
 	CD    bool   `json:"cd"`
 	Scope string `json:"scope,omitempty"` // "" = global audience, else masked prefix
+	// Zone: not a question but a zone-wide failure state for Name (covers
+	// every name at or below it, any type / CD / audience).
+	Zone bool `json:"zone,omitempty"`
 }
 
 func (p pre) String() string {
 	s := fmt.Sprintf("%q/%s/%s/cd=%v", p.Name, typeName(p.Type), className(p.Class), p.CD)
 	if p.Scope != "" {
 		s += "/scope=" + p.Scope
+	}
+	if p.Zone {
+		s = fmt.Sprintf("zone %q/%s", p.Name, className(p.Class))
 	}
 	return s
 }
@@ -84,6 +92,12 @@ type marker struct {
 	// Internal: produced for an internal sub-query (alias chase, prefetch
 	// refresh) rather than for a client request.
 	Internal bool `json:"internal,omitempty"`
+	// Shape of the OPT record the scripted authority sent with this answer:
+	// how many other options stood before / after the client-subnet
+	// option(s), and the SCOPE of each subnet option in order.
+	OptBefore int   `json:"opt_other_before,omitempty"`
+	OptAfter  int   `json:"opt_other_after,omitempty"`
+	Subnets   []int `json:"opt_subnet_scopes,omitempty"`
 }
 
 type failureRec struct {
@@ -95,8 +109,16 @@ type universe struct {
 	markers []marker // index = id (0 unused)
 	failing map[string]bool
 	failed  []failureRec
+	zfailed []pre // zone-wide failures recorded through Store.RecordZoneFailure
 
 	internalCalls atomic.Int64 // stub invocations made by internal sub-queries (chase, prefetch)
+
+	// decorate: upstream responses carry OPT records of generated shape
+	// (other options around the client-subnet option, several subnet
+	// options); salt keys the per-response generator, count reports.
+	decorate bool
+	salt     uint64
+	count    func(name string, n int)
 }
 
 func newUniverse() *universe {
@@ -136,12 +158,24 @@ func (u *universe) setFailing(p pre, on bool) {
 	u.mu.Unlock()
 }
 
+func (u *universe) addZoneFailure(z pre) {
+	u.mu.Lock()
+	u.zfailed = append(u.zfailed, z)
+	u.mu.Unlock()
+}
+
+func (u *universe) zoneFailures() []pre {
+	u.mu.Lock()
+	defer u.mu.Unlock()
+	return u.zfailed
+}
+
 func (u *universe) failureRecorded(name string, t, c uint16, cd bool) []failureRec {
 	u.mu.Lock()
 	defer u.mu.Unlock()
 	var out []failureRec
 	for _, f := range u.failed {
-		if f.Pre.Type == t && f.Pre.Class == c && f.Pre.CD == cd && f.Pre.Name == asciiLower(name) {
+		if f.Pre.Type == t && f.Pre.Class == c && f.Pre.CD == cd && f.Pre.Name == canonLower(name) {
 			out = append(out, f)
 		}
 	}
@@ -276,7 +310,7 @@ func isAliasName(name string) bool {
 // answerFor builds the answer section the universe gives question q in
 // partition cd for audience scope, and registers its marker.
 func (u *universe) answerFor(q dns.Question, cd bool, scope string, forged bool) ([]dns.RR, uint32) {
-	p := pre{Name: asciiLower(q.Name), Type: q.Qtype, Class: q.Qclass, CD: cd, Scope: scope}
+	p := pre{Name: canonLower(q.Name), Type: q.Qtype, Class: q.Qclass, CD: cd, Scope: scope}
 	if isAliasName(q.Name) && q.Qtype != dns.TypeCNAME {
 		end := firstLabelEnd(q.Name)
 		rest := "."
@@ -366,7 +400,7 @@ func audienceOf(src netip.Prefix, scopeBits int) string {
 // stub is the scripted terminal handler.
 func (u *universe) stub(_ context.Context, req *stack.StubRequest) *stack.StubReply {
 	q := req.Q
-	p := pre{Name: asciiLower(q.Name), Type: q.Qtype, Class: q.Qclass, CD: req.CD}
+	p := pre{Name: canonLower(q.Name), Type: q.Qtype, Class: q.Qclass, CD: req.CD}
 	if req.Internal {
 		u.internalCalls.Add(1)
 	}
@@ -396,31 +430,166 @@ func (u *universe) stub(_ context.Context, req *stack.StubRequest) *stack.StubRe
 
 	rep := &stack.StubReply{}
 	scope := ""
+	var subnets []int // SCOPE of each client-subnet option of the response
 	if hasSrc {
 		if n, ok := scopeTag(q.Name, req.ECS.Family); ok {
-			rep.HasECSScope = true
-			rep.ECSScope = n
+			subnets = []int{n}
 			scope = audienceOf(src, n)
+		}
+	}
+	var before, after []dns.EDNS0
+	if u.decorate && req.OPT != nil {
+		before, after, subnets = u.optShape(req, p, subnets)
+		if len(subnets) > 1 {
+			// Several subnet options (RFC 7871 allows one): the statement does
+			// not say which one scopes the answer, so the audience is the
+			// widest any of them names — a reader that takes the first, the
+			// last or the narrowest all stay inside it.
+			min := subnets[0]
+			for _, n := range subnets {
+				if n < min {
+					min = n
+				}
+			}
+			scope = audienceOf(src, min)
 		}
 	}
 	m := new(dns.Msg)
 	var id uint32
 	m.Answer, id = u.answerFor(q, req.CD, scope, false)
-	if req.Internal {
-		u.mu.Lock()
-		u.markers[id].Internal = true
-		u.mu.Unlock()
+	u.mu.Lock()
+	u.markers[id].Internal = req.Internal
+	u.markers[id].OptBefore, u.markers[id].OptAfter, u.markers[id].Subnets = len(before), len(after), subnets
+	u.mu.Unlock()
+	if opt := attachOPT(m, req); opt != nil {
+		opt.Option = append(opt.Option, before...)
+		for _, n := range subnets {
+			e := *req.ECS
+			e.SourceScope = uint8(n)
+			opt.Option = append(opt.Option, &e)
+		}
+		opt.Option = append(opt.Option, after...)
 	}
-	attachOPT(m, req)
 	rep.Msg = m
 	return rep
 }
 
+// optShape generates the OPT shape of one upstream response: other options
+// before and after the client-subnet option(s), and — when the authority
+// scopes at all — sometimes a second subnet option (same or another SCOPE).
+// A pure function of (salt, question, partition, forwarded source, how often
+// this question was asked), so a replayed history sees the same shapes.
+func (u *universe) optShape(req *stack.StubRequest, p pre, subnets []int) (before, after []dns.EDNS0, outSubnets []int) {
+	src := ""
+	if req.ECS != nil {
+		src = req.ECS.String()
+	}
+	h := fnv.New64a()
+	fmt.Fprintf(h, "%s|%d|%d|%v|%s|%d", p.Name, p.Type, p.Class, p.CD, src, req.Nth)
+	rng := rand.New(rand.NewPCG(u.salt, h.Sum64()))
+	count := func(name string) {
+		if u.count != nil {
+			u.count("upstream_opt/"+name, 1)
+		}
+	}
+	outSubnets = subnets
+	if rng.IntN(4) == 0 {
+		count("plain")
+		return
+	}
+	nb, na := rng.IntN(4), rng.IntN(3)
+	if nb == 0 && na == 0 {
+		nb = 1
+	}
+	for i := 0; i < nb; i++ {
+		before = append(before, randOption(rng, count))
+	}
+	for i := 0; i < na; i++ {
+		after = append(after, randOption(rng, count))
+	}
+	count("decorated")
+	if len(subnets) == 1 {
+		n := subnets[0]
+		switch rng.IntN(10) {
+		case 0:
+			outSubnets = []int{n, n}
+			count("multi_subnet_same_scope")
+		case 1:
+			n2 := pick(rng, []int{0, n / 2, n - 4, n + 8})
+			max := 32
+			if req.ECS.Family == 2 {
+				max = 128
+			}
+			if n2 < 0 || n2 == n || n2 > max {
+				n2 = 0
+			}
+			outSubnets = []int{n, n2}
+			if rng.IntN(2) == 0 {
+				outSubnets = []int{n2, n}
+			}
+			count("multi_subnet_differing_scopes")
+		}
+		fam := "v4"
+		if req.ECS.Family == 2 {
+			fam = "v6"
+		}
+		kind := "global"
+		if n > 0 {
+			kind = "scoped"
+		}
+		if nb > 0 {
+			count(kind + "_subnet_after_other_" + fam)
+		}
+		if na > 0 {
+			count(kind + "_subnet_before_other_" + fam)
+		}
+	} else {
+		count("no_subnet_option")
+	}
+	return
+}
+
+// randOption builds one non-subnet EDNS option of the kinds real authorities
+// and forwarders send: COOKIE, NSID, EDE, padding, EXPIRE, codes from the
+// local/experimental range and an unassigned one.
+func randOption(rng *rand.Rand, count func(string)) dns.EDNS0 {
+	rb := func(n int) []byte {
+		b := make([]byte, n)
+		for i := range b {
+			b[i] = byte(rng.IntN(256))
+		}
+		return b
+	}
+	switch rng.IntN(7) {
+	case 0:
+		count("option_cookie")
+		return &dns.EDNS0_COOKIE{Code: dns.EDNS0COOKIE, Cookie: hex.EncodeToString(rb(8 + pick(rng, []int{8, 16, 32})))}
+	case 1:
+		count("option_nsid")
+		return &dns.EDNS0_NSID{Code: dns.EDNS0NSID, Nsid: hex.EncodeToString([]byte(fmt.Sprintf("auth-%d", rng.IntN(100))))}
+	case 2:
+		count("option_ede")
+		return &dns.EDNS0_EDE{InfoCode: dns.ExtendedErrorCodeOther, ExtraText: fmt.Sprintf("c03-%d", rng.IntN(100))}
+	case 3:
+		count("option_padding")
+		return &dns.EDNS0_PADDING{Padding: make([]byte, rng.IntN(48))}
+	case 4:
+		count("option_expire")
+		return &dns.EDNS0_EXPIRE{Code: dns.EDNS0EXPIRE, Expire: uint32(rng.IntN(100000))}
+	case 5:
+		count("option_local")
+		return &dns.EDNS0_LOCAL{Code: uint16(dns.EDNS0LOCALSTART + rng.IntN(100)), Data: rb(rng.IntN(12))}
+	default:
+		count("option_unassigned")
+		return &dns.EDNS0_LOCAL{Code: uint16(20000 + rng.IntN(1000)), Data: rb(1 + rng.IntN(12))}
+	}
+}
+
 // attachOPT gives the response a fresh OPT (never the request's: that one
 // carries the forwarded ECS option with SCOPE 0).
-func attachOPT(m *dns.Msg, req *stack.StubRequest) {
+func attachOPT(m *dns.Msg, req *stack.StubRequest) *dns.OPT {
 	if req.OPT == nil {
-		return
+		return nil
 	}
 	opt := new(dns.OPT)
 	opt.Hdr.Name = "."
@@ -428,6 +597,7 @@ func attachOPT(m *dns.Msg, req *stack.StubRequest) {
 	opt.SetUDPSize(1232)
 	opt.SetDo(req.DO)
 	m.Extra = append(m.Extra, opt)
+	return opt
 }
 
 // responseFor builds the complete response message the universe would give
@@ -448,7 +618,7 @@ func (u *universe) responseFor(q dns.Question, cd bool, scope string, forged boo
 // cutProof builds a message Store.RecordNXDomainCut accepts: NXDOMAIN, SOA of
 // zone carrying the marker, an in-zone NSEC, both "signed" by zone.
 func (u *universe) cutProof(zone, denied string, class uint16) (*dns.Msg, uint32) {
-	p := pre{Name: asciiLower(dns.CanonicalName(denied)), Type: 0, Class: class, CD: false}
+	p := pre{Name: canonLower(dns.CanonicalName(denied)), Type: 0, Class: class, CD: false}
 	id := u.alloc(p, "cut", "", false)
 	now := time.Now()
 	sig := func(owner string, covered uint16, labels int) *dns.RRSIG {
